@@ -27,7 +27,10 @@ PickPriv(w) == IF Coin(Noise) THEN (IF Coin(2) THEN "bad" ELSE RS(Pass)) ELSE Pr
 PickPub(w)  == IF Coin(Noise + 1) THEN RS(Pass) ELSE S.pub[w]
 FreshPass(w) == RS({p \in Pass : WF(p) /\ p # S.pub[w] /\ p # S.priv[w]})
 PickSeed(w) == IF HasKs(S, w) /\ ~Coin(5) THEN RS(Present(S, w)) ELSE RS(Seeds)
-FreeSeed(w) == IF Seeds \ Present(S, w) # {} /\ ~Coin(5) THEN RS(Seeds \ Present(S, w)) ELSE RS(Seeds \cup {"badseed"})
+\* seeds of keystores that existed before and are gone now (deleted): creating them again must start from scratch
+Former(w) == {hist[i].s : i \in {j \in DOMAIN hist : hist[j].t = "NewKs" /\ hist[j].w = w}} \ Present(S, w)
+FreeSeed(w) == IF Former(w) \cap Seeds # {} /\ Coin(2) THEN RS(Former(w) \cap Seeds)
+               ELSE IF Seeds \ Present(S, w) # {} /\ ~Coin(5) THEN RS(Seeds \ Present(S, w)) ELSE RS(Seeds \cup {"badseed"})
 UsedFiles == {f \in FileIds : S.files[f] # NoFile}
 FreeFiles == FileIds \ UsedFiles
 CleanFiles == {f \in UsedFiles : S.files[f].tamper = "none"}
@@ -67,7 +70,10 @@ GNext ==
         LET f == RS(UsedFiles) IN
         Do([t |-> "Import", w |-> w, f |-> f,
             old |-> IF Coin(8) THEN RS(Pass) ELSE S.files[f].sealed,
-            new |-> IF Coin(3) THEN "" ELSE IF Coin(8) THEN RS(Pass) ELSE IF HasKs(S, w) THEN S.priv[w] ELSE FreshPass(w)])
+            \* (a file sealed under another passphrase than the wallet's, imported without naming a new one, is the
+            \* case where the wallet's single private passphrase is at stake)
+            new |-> IF HasKs(S, w) /\ S.files[f].sealed # S.priv[w] /\ Coin(2) THEN ""
+                    ELSE IF Coin(3) THEN "" ELSE IF Coin(8) THEN RS(Pass) ELSE IF HasKs(S, w) THEN S.priv[w] ELSE FreshPass(w)])
   \/ \E w \in Up : Do([t |-> "Lock", w |-> w])
   \/ \E w \in Up : \E i \in W(3) : Do([t |-> "Unlock", w |-> w, p |-> PickPriv(w)])
   \/ \E w \in Up : Live(w) /\ Do([t |-> "Sign", w |-> w, s |-> PickSeed(w), b |-> RS({0, 1}), i |-> RS(0..2)])
